@@ -50,6 +50,7 @@ def parsePat : Sexp → Pat
 partial def parseStmt (tp : TimeParser τ) : Sexp → Stmt τ
   | .list [.atom "log", k] => .log k.int!
   | .list [.atom "now"] => .logNow
+  | .list [.atom "logcond", c] => .logCond (parseCExpr tp c)
   | .list [.atom "sleep", d] => .sleep (tm tp d)
   | .list [.atom "await", c] => .awaitC (parseCExpr tp c)
   | .list [.atom "set", f, b] => .setFlag f.nat! (b.nat! == 1)
